@@ -37,7 +37,12 @@ impl LintPass for DeadValueCheck {
             // to the end of the node. These assignments are not
             // used.
             else if let Some(def) = node.writes_to() {
-                if !node.live_out().contains(def.get()) && !node.can_skip_save_checks() {
+                // (the zero register holds no value that could go unused; a
+                // write to it is the business of the save-to-zero check)
+                if !node.live_out().contains(def.get())
+                    && !node.can_skip_save_checks()
+                    && def != Register::X0
+                {
                     errors.push(LintError::DeadAssignment(def));
                 }
             }
